@@ -147,6 +147,8 @@ def record_one(inst):
     nrest = sum(1 for e in ev if e["ev"] == "RunBegin") + sum(1 for e in ev if e["ev"] == "SoftEnd") + 3
     onesample = inst.get("nsamples", "1") == "1"
     det = onesample and not inst.get("noise_sd") and not inst.get("noise")
+    if inst.get("fault") and inst.get("restarts") == "hardnew":
+        det = False     # a fault at the RE-evaluation of a hard restart's start point makes the objective a non-deterministic function of x (C04 does not apply; C08 does)
     npt0 = None
     for e in ev:
         if e["ev"] == "RunBegin":
